@@ -6,6 +6,9 @@
 (*    indirections (p pointer, i interface) around a leaf; marshaling succeeds  *)
 (*    iff the JSON nesting (slices and maps, plus the levels of the leaf when   *)
 (*    that is an empty container) is at most MaxD.                              *)
+(*  awk cases: Unmarshal / Marshal of awkward struct shapes (embedded pointers  *)
+(*    to unexported structs, named unexported embedded structs, fallbacks       *)
+(*    behind nil pointers, diamonds) with probing inputs.                       *)
 (* In no case may the library panic, crash or fail to terminate.               *)
 EXTENDS Integers, Sequences, FiniteSets, TLC, Json, IOUtils
 
@@ -31,7 +34,10 @@ HasCycle(nodes, root) ==
     \E x \in r : x \in Reach1(nodes, x)
 
 Expected(rec) ==
-    IF rec.kind = "heap"
+    \* struct shapes that reflection can only half reach, fed with probing inputs: the calls may
+    \* succeed or fail as they like, none may panic
+    IF rec.kind = "awk" THEN "ok"
+    ELSE IF rec.kind = "heap"
     THEN IF HasCycle(rec.nodes, rec.root) THEN "err" ELSE "ok"
     ELSE LET per == Cardinality({k \in 1..Len(rec.shape) : rec.shape[k] \in {"s", "m"}})
              \* levels the innermost value adds: an (empty) container is a level, struct{X []int} two
